@@ -1,22 +1,86 @@
 /-
 Property C01 — only an authentically signed layout is ever enforced.
-Model: InToto/Model/Verify.lean (`verifyLayoutSigs`, `mdVerify`, `verifyAux`), Metadata.lean.
-(Interim: the unbounded pipeline theorems are being proved, see /verif/wip/PipeSigs.lean.)
+
+ONLY property theorems live here (helper lemmas: InToto/Proofs/PipeSigs.lean).
+Model: InToto/Model/Verify.lean (`verifyLayoutSigs`, `mdVerify`, `verifyAux` = one level of
+InTotoVerify / InTotoVerifyWithDirectory), InToto/Model/Metadata.lean.
+Signatures are symbolic: `W.sigOK pub msg sig` is the primitive's verdict (perfect-signature
+abstraction); every theorem holds for every such oracle.
 -/
-import InToto.Model.Verify
+import InToto.Proofs.PipeSigs
 
 namespace InToto.C01
-open InToto InToto.Metadata InToto.Verify
+open InToto InToto.Json InToto.Schema InToto.Metadata InToto.Verify InToto.PipeProofs
+
+/-- C01 (every supplied key must have signed): acceptance at any level, through either entry
+    point, implies at least one layout key was supplied and EVERY supplied key verifies. -/
+theorem accepted_means_all_keys_verify (W : World) (ln : Bool) (ci : List Str) (fuel : Nat) (md : Md)
+    (keys : List (Str × Key)) (dir : Dir) (sn : Str) (params : List (Str × Str)) (rd : RunDirState) (acc : Acc)
+    (s : Summary) (h : (verifyAux W ln ci (fuel + 1) md keys dir sn params rd acc).out = .ok s) :
+    keys ≠ [] ∧ ∀ kv ∈ keys, mdVerify W md kv.2 = .ok () :=
+  verifyLayoutSigs_ok W md keys (verifyAux_ok_inv W ln ci fuel md keys dir sn params rd acc s h).2.2.1
+
+/-- C01 (exact content, legacy wrapper): a verifying key has a signature, under its key id, that the
+    primitive accepts over exactly the canonical bytes of the payload that is then enforced
+    (`canonPayload` is injective by C11, so no other content has these bytes). -/
+theorem legacy_signature_binds_enforced_content (W : World) (p : Payload) (sigs : TVal) (k : Key)
+    (h : mdVerify W (.legacy p sigs) k = .ok ()) :
+    ∃ s ∈ sigsOf (.legacy p sigs), s.keyid = k.keyid ∧
+      ∃ msg raw, canonPayload p = some msg ∧ hexDecode s.sig = some raw ∧
+        W.sigOK k.pub msg (hexLower raw) = true :=
+  mdVerify_legacy_sound W p sigs k h
+
+/-- C01 (exact content, DSSE wrapper): the accepted signature is over the pre-authentication
+    encoding of the stored payload bytes ... -/
+theorem dsse_signature_over_stored_bytes (W : World) (pt pl : Str) (sigs : TVal) (p : Payload) (k : Key)
+    (h : mdVerify W (.dsse pt pl sigs p) k = .ok ()) :
+    ∃ s ∈ sigsOf (.dsse pt pl sigs p), (s.keyid = [] ∨ s.keyid = k.keyid) ∧
+      ∃ body raw, bodyOf pl = some body ∧ B64.decodeFlex s.sig = some raw ∧
+        W.sigOK k.pub (pae pt body) (hexLower raw) = true :=
+  mdVerify_dsse_sound W pt pl sigs p k h
+
+/-- ... and the layout object that is enforced was strictly decoded from exactly those bytes:
+    nothing outside the signed bytes influences the enforced layout. -/
+theorem dsse_enforced_layout_is_signed_bytes (t pt pl : Str) (sigs : TVal) (p : Payload)
+    (h : loadMetadata t = .ok (.dsse pt pl sigs p)) :
+    ∃ body pj, bodyOf pl = some body ∧ parseJ body = some pj ∧ loadPayload pj = .ok p ∧ pt = payloadTypeConst :=
+  loadMetadata_dsse_coherent t pt pl sigs p h
+
+/-- C01 (rejected before anything happens): if any supplied key lacks a valid signature — content
+    altered after signing, signature missing or corrupted, signed only by other keys, no key
+    supplied — the result is an error and NO inspection command was executed and nothing in the
+    inspected directory changed at this level; for both entry points (`rd` arbitrary). -/
+theorem rejected_before_anything_runs (W : World) (ln : Bool) (ci : List Str) (fuel : Nat) (md : Md)
+    (keys : List (Str × Key)) (dir : Dir) (sn : Str) (params : List (Str × Str)) (rd : RunDirState) (acc : Acc)
+    (h : verifyLayoutSigs W md keys ≠ .ok ()) :
+    let r := verifyAux W ln ci (fuel + 1) md keys dir sn params rd acc
+    r.out.isOk = false ∧ r.ran = acc.ran ∧ r.fs = acc.fs :=
+  verifyAux_sig_first W ln ci fuel md keys dir sn params rd acc h
+
+/-- one key without a valid signature suffices for rejection -/
+theorem one_bad_key_rejects (W : World) (m : Md) (keys : List (Str × Key)) (kv : Str × Key)
+    (hk : kv ∈ keys) (hbad : mdVerify W m kv.2 ≠ .ok ()) : verifyLayoutSigs W m keys ≠ .ok () := by
+  intro h
+  exact hbad ((verifyLayoutSigs_ok W m keys h).2 kv hk)
+
+/-- the verdict of the signature stage does not depend on the order of the key map -/
+theorem key_order_irrelevant (W : World) (m : Md) (k₁ k₂ : List (Str × Key)) (h : k₁.Perm k₂) :
+    (verifyLayoutSigs W m k₁).isOk = (verifyLayoutSigs W m k₂).isOk :=
+  verifyLayoutSigs_perm W m k₁ k₂ h
 
 /-- C01: without a layout key nothing is accepted -/
 theorem no_key_rejected (W : World) (m : Md) : verifyLayoutSigs W m [] = .err "no-layout-key" := rfl
 
-/-- C01: and the pipeline then stops before anything is executed or changed, for both entry points -/
-theorem no_key_nothing_runs (W : World) (ln : Bool) (ci : List Str) (fuel : Nat) (md : Md)
-    (dir : Dir) (sn : Str) (params : List (Str × Str)) (p : Str) (acc : Acc) :
-    (verifyAux W ln ci (fuel + 1) md [] dir sn params .none acc).ran = acc.ran ∧
-    (verifyAux W ln ci (fuel + 1) md [] dir sn params (.ok p) acc).ran = acc.ran ∧
-    (verifyAux W ln ci (fuel + 1) md [] dir sn params .none acc).out = .err "no-layout-key" := by
-  simp [verifyAux, verifyLayoutSigs]
+/-- non-vacuity: with the always-accepting primitive and a usable Ed25519 key a concrete signed
+    legacy layout passes the signature stage; with the always-rejecting primitive it does not -/
+theorem signature_stage_example :
+    let k : Key := { keyid := lit% "ab", keytype := lit% "ed25519", scheme := lit% "ed25519",
+                     pub := List.replicate 64 '1', priv := [], cert := [] }
+    let m : Md := .legacy (.layout (zero tyLayout))
+                   (.list (some [.struct [(lit% "keyid", .str (lit% "ab")), (lit% "sig", .str (lit% "00ff")), (lit% "cert", .str [])]]))
+    let W (b : Bool) : World := { now := 0, sigOK := fun _ _ _ => b, matClass := fun _ => [], cert := fun _ => none,
+                                  pemHasCert := fun _ => false, exec := fun _ => ⟨false, 0, [], []⟩ }
+    verifyLayoutSigs (W true) m [(lit% "ab", k)] = .ok () ∧ (verifyLayoutSigs (W false) m [(lit% "ab", k)]).isOk = false := by
+  decide
 
 end InToto.C01
